@@ -97,10 +97,11 @@ def run_shard(spec, tier, seed, budget_s):
         while k < target and not sh.out_of_time():
             k += 1
             size = rng.choice(['tiny', 'small', 'small', 'medium'] + (['large'] if tier == 'thorough' else []))
+            kwp = rng.random() < 0.15
             doc = gen.random_doc(rng, size, text_profile=rng.choice(['plain', 'rich']),
-                                 props=rng.random() < 0.3)
-            label = 'random'
-            if rng.random() < 0.2 and gen.same_bare_names(doc, rng):
+                                 props=rng.random() < 0.3 and not kwp, flavours=('kwprefix',) if kwp else gen.CORE_FLAVOURS)
+            label = 'random.kwprefix' if kwp else 'random'
+            if not kwp and rng.random() < 0.2 and gen.same_bare_names(doc, rng):
                 label = 'random.samebare'      # equal bare table names in different schemas
                 if rng.random() < 0.5:
                     # ... and equal column names in those tables, so that a reference bound to the wrong twin still resolves
@@ -142,7 +143,7 @@ def conclusive(agg, tier):
     c = agg['counters']
     out = []
     for k in ('obs.docs.product.column', 'obs.docs.product.index', 'obs.docs.product.ref',
-              'obs.docs.random', 'obs.docs.random.samebare', 'obs.docs.random.standalone'):
+              'obs.docs.random', 'obs.docs.random.samebare', 'obs.docs.random.kwprefix', 'obs.docs.random.standalone'):
         if not c.get(k):
             out.append(f'sub-suite {k} executed no case')
     return out
